@@ -73,6 +73,17 @@ def gen_cases(rng, tier):
         cases.append({"pos": [enc(x) for x in pos], "neg": [enc(x) for x in neg], "ep": ep, "en": en, "sc": sc, "ec": ec,
                       "lower": enc(lo), "upper": enc(hi), "mid": enc(mid), "exact": exact,
                       "dtype": ("float32" if style == "adjacent" and f32 else pick_dtype(rng, pos + neg))})
+    # derived objects: smoothed replacement bootstrap samples (arbitrary doubles, no cross-class ties almost surely)
+    for j in range({"quick": 24, "thorough": 200, "search": 80}[tier]):
+        npos, nneg = rng.randint(2, 9), rng.randint(2, 9)
+        pos, neg = score_list(rng, npos, "dyadic"), score_list(rng, nneg, "dyadic")
+        lo = Fraction(rng.randint(0, 16), 16)
+        hi = Fraction(rng.randint(int(lo * 16), 16), 16)
+        mid = Fraction(rng.randint(int(lo * 16), int(hi * 16)), 16)
+        sc, ec = CONFIGS[j % 4]
+        cases.append({"pos": [enc(x) for x in pos], "neg": [enc(x) for x in neg], "ep": rng.choice([0, 0, 2]), "en": rng.choice([0, 0, 3]),
+                      "sc": sc, "ec": ec, "lower": enc(lo), "upper": enc(hi), "mid": enc(mid), "exact": False, "dtype": "float64",
+                      "via": "smoothed", "via_seed": rng.randint(0, 10 ** 6)})
     return cases
 
 
@@ -80,8 +91,10 @@ def run_impl(case):
     import numpy as np
 
     s = tc.make_scores(case)
+    case = tc.actual_case(case, s)
     lo, hi, mid = fl(case["lower"]), fl(case["upper"]), fl(case["mid"])
-    out = {"full": enc(float(s.auc())),
+    out = {"actual": {"pos": case["pos"], "neg": case["neg"], "ep": case["ep"], "en": case["en"]} if case.get("via") else None,
+           "full": enc(float(s.auc())),
            "win": enc(float(s.auc(lower=lo, upper=hi))),
            "win_a": enc(float(s.auc(lower=lo, upper=mid))), "win_b": enc(float(s.auc(lower=mid, upper=hi))),
            "compl_y": enc(float(s.auc(lower=lo, upper=hi, y_axis="fnr"))),
@@ -96,6 +109,8 @@ def run_impl(case):
 
 
 def coq_term(case, res):
+    if case.get("via"):
+        return None       # derived object (arbitrary doubles): oracle only
     if "ok" not in res:
         return "false"
     r = res["ok"]
@@ -150,6 +165,7 @@ def _step_area(case, lo, hi):
 
 
 def oracle(case, res):
+    case = tc.effective(case, res)
     if "ok" not in res:
         return [("C07/exception", f"auc raised {res.get('err')}: {res.get('msg')}")]
     r = res["ok"]
